@@ -65,8 +65,6 @@ def elemBody (W : World) (f : Nat) (ctx : Ctx) (st : St) (tag : Str) (attrs : Li
   else if !hasAttr attrs (S "v-if") && (hasAttr attrs (S "v-else-if") || hasAttr attrs (S "v-else")) then evalList W f ctx st rest
   else if hasAttr attrs (S "v-for") then
     bindR (evalVFor W f ctx st tag attrs kids rest) (fun rs st1 => prepend rs.1 (evalList W f ctx st1 (rest.drop rs.2)))
-  else if tag == S "slot" then
-    bindR (evalSlot W f ctx st attrs kids) (fun res st1 => prepend res (evalList W f ctx st1 rest))
   else if hasAttr attrs (S "v-if") then
     bindE (chainSelect (evalCondition W.P st.stack) (getAttr attrs (S "v-if")) rest) (fun ps =>
       match ps.1 with
@@ -79,6 +77,8 @@ def elemBody (W : World) (f : Nat) (ctx : Ctx) (st : St) (tag : Str) (attrs : Li
            | none => evalList W f ctx st (rest.drop ps.2)
            | some st' => bindR (evalAsElement W f ctx st' t a k) (fun res st1 => prepend res (evalList W f ctx st1 (rest.drop ps.2))))
         | _ => evalList W f ctx st (rest.drop ps.2))
+  else if tag == S "slot" then
+    bindR (evalSlot W f ctx st attrs kids) (fun res st1 => prepend res (evalList W f ctx st1 rest))
   else if tag == S "template" then
     bindR (evalTemplate W f ctx st attrs kids) (fun res st1 =>
       prepend (if hasAttr attrs (S "v-keep") then [.elem tag (keptAttrs W.P st.stack attrs) res] else res) (evalList W f ctx st1 rest))
@@ -103,18 +103,18 @@ theorem le_elemBody (W : World) (f : Nat) (ih : MonoAt W f) (ctx : Ctx) (st : St
     · split
       · exact le_bindR (ih.vfor _ _ _ _ _ _) (fun _ _ => le_prepend _ (ih.list _ _ _))
       · split
-        · exact le_bindR (ih.slot _ _ _ _) (fun _ _ => le_prepend _ (ih.list _ _ _))
-        · split
-          · apply le_bindE
-            intro ps
-            split
-            · exact ih.list _ _ _
-            · exact le_bindR (ih.asElem _ _ _ _ _) (fun _ _ => le_prepend _ (ih.list _ _ _))
+        · apply le_bindE
+          intro ps
+          split
+          · exact ih.list _ _ _
+          · exact le_bindR (ih.asElem _ _ _ _ _) (fun _ _ => le_prepend _ (ih.list _ _ _))
+          · split
             · split
-              · split
-                · exact ih.list _ _ _
-                · exact le_bindR (ih.asElem _ _ _ _ _) (fun _ _ => le_prepend _ (ih.list _ _ _))
               · exact ih.list _ _ _
+              · exact le_bindR (ih.asElem _ _ _ _ _) (fun _ _ => le_prepend _ (ih.list _ _ _))
+            · exact ih.list _ _ _
+        · split
+          · exact le_bindR (ih.slot _ _ _ _) (fun _ _ => le_prepend _ (ih.list _ _ _))
           · split
             · exact le_bindR (ih.tmpl _ _ _ _) (fun _ _ => le_prepend _ (ih.list _ _ _))
             · exact le_bindR (ih.plain _ _ _ _ _) (fun _ _ => le_prepend _ (ih.list _ _ _))
@@ -158,10 +158,12 @@ theorem mono_asElem_step (W : World) (f : Nat) (ih : MonoAt W f) :
   split
   · exact ih.for_ _ _ _ _ _ _
   · split
+    · exact ih.slot _ _ _ _
     · split
-      · exact ih.tmpl _ _ _ _
-      · exact ih.list _ _ _
-    · exact ih.plain _ _ _ _ _
+      · split
+        · exact ih.tmpl _ _ _ _
+        · exact ih.list _ _ _
+      · exact ih.plain _ _ _ _ _
 
 theorem mono_vfor_step (W : World) (f : Nat) (ih : MonoAt W f) :
     ∀ ctx st tag attrs kids rest, Le (evalVFor W (f + 1) ctx st tag attrs kids rest) (evalVFor W (f + 2) ctx st tag attrs kids rest) := by
